@@ -149,6 +149,23 @@ fn case_bitpack(ctx: &mut Ctx, seed: u64, case: &Value) {
         if pos != brute {
             oracle(ctx, "C08:bitpack-range-lookup", format!("width {w}: get_ids_for_value_range({lo}..={hi}, {s}..{e}) returned {} ids, brute force {}", pos.len(), brute.len()), case);
         }
+        // the model of the lookup (slow u64 path / translated u32 conversion) on the same bytes, also with
+        // range ends around and above u32::MAX
+        if n <= 600 {
+            let mut r2 = Rng(seed ^ 0x5151_5151); // separate stream: the case's own draws stay as they were
+            let hi2 = match r2.below(4) { 0 => hi, 1 => (1u64 << 32) + r2.below(8), 2 => u32::MAX as u64 - r2.below(3), _ => u64::MAX - r2.below(3) };
+            let lo2 = if r2.chance(1, 6) { (1u64 << 32) + r2.below(4) } else { lo.min(hi2) };
+            let mut pos2 = vec![];
+            un.get_ids_for_value_range(lo2..=hi2, s as u32..e as u32, &data, &mut pos2);
+            let brute2: Vec<u32> = (s..e).filter(|&i| vals[i] >= lo2 && vals[i] <= hi2).map(|i| i as u32).collect();
+            if pos2 != brute2 {
+                oracle(ctx, "C08:bitpack-range-lookup", format!("width {w}: get_ids_for_value_range({lo2}..={hi2}, {s}..{e}) returned {} ids, brute force {}", pos2.len(), brute2.len()), case);
+            }
+            let m = ctx.model.ask(&format!("C08 rangeids {w} {} {lo2} {hi2} {s} {e}", hex(&data)));
+            if m != nat_list(&pos2) {
+                modelv(ctx, "C08:bitpack-range-lookup-model", format!("width {w}: model get_ids_for_value_range({lo2}..={hi2}, {s}..{e}) differs from the real result"), case);
+            }
+        }
     }
     // model: same bytes, same reads
     let m = ctx.model.ask(&format!("C08 pack {w} {}", nat_list(&vals)));
@@ -810,6 +827,7 @@ pub fn run(ctx: &mut Ctx) {
     ctx.report.correspondence_obligations = vec![
         "BitPacker bytes = model pack (byte exact); model BitUnpacker::get on real bytes = values".into(),
         "compute_num_bits = model".into(),
+        "BitUnpacker::get_ids_for_value_range = model (slow path / translated u32 conversion) on the same bytes".into(),
         "model decode of real column-values bytes (bitpacked / linear / blockwise) = indexed values; header stats equal".into(),
         "real decoder on model-encoded column bytes = values".into(),
         "serialize_optional_index bytes = model optEnc (byte exact, incl. sparse/dense switch at the threshold)".into(),
@@ -819,6 +837,8 @@ pub fn run(ctx: &mut Ctx) {
         "column index + values of real columnar files cross-decoded by the model (cardinality, optional index, start offsets, values)".into(),
         "merge row mapping: read(model mergeShuffled / mergeStacked) = real merged column rows".into(),
         "model decode of real compact-space (IP) column bytes = indexed u128 values; footer min/max equal".into(),
+        "compact-space range lookup (query range -> compact range incl. gaps) = model on the real column bytes".into(),
+        "Column::get_docids_for_value_range on written u64 columns = model (docid_range_to_rowids + select_batch_in_place)".into(),
         "cardinality of every written column = the model of ColumnWriter (op log, delta_with_last_doc); model writer reads back its rows".into(),
     ];
     if let Some(case) = ctx.replay.clone() {
@@ -828,12 +848,12 @@ pub fn run(ctx: &mut Ctx) {
     check_constants(ctx);
     known_range_below_min(ctx);
     let plan: [(&str, u64, u64); 6] = [
-        ("bitpack", 500, 8_000),
-        ("codec", 230, 4_000),
-        ("optidx", 60, 900),
-        ("columnar", 260, 5_000),
-        ("merge", 220, 4_500),
-        ("tantivy", 14, 200),
+        ("bitpack", 500, 2_200),
+        ("codec", 230, 1_100),
+        ("optidx", 60, 300),
+        ("columnar", 260, 1_250),
+        ("merge", 220, 1_100),
+        ("tantivy", 14, 64),
     ];
     for (kind, q, t) in plan {
         let n = ctx.budget(q, t);
